@@ -21,7 +21,7 @@ def _policy(sched, salt=0):
     if kind == "default":
         return _sim.DefaultPolicy()
     return RandomWalkPolicy(seed, sched.get("p", 0.3), sched.get("p_line", 0.15), sched.get("stall_p", 0.0),
-                            stall_durs=(0.01, 0.05, 0.3, 1.2))
+                            stall_durs=(0.01, 0.05, 0.3, 1.2), stall_hot=sched.get("stall_hot", 0.0))
 
 
 def _run_sim(cfg, body, **simkw):
